@@ -62,6 +62,7 @@ import (
 type Req struct {
 	ID      string     `json:"id"`
 	Data    []byte     `json:"data,omitempty"` // explicit input bytes
+	Raw     bool       `json:"raw,omitempty"`  // Data is the input even when it is empty
 	Wiring  *Wiring    `json:"wiring,omitempty"`
 	Variant int        `json:"variant,omitempty"`
 	Family  *Family    `json:"family,omitempty"`
@@ -773,7 +774,7 @@ func WorkerMain() {
 // input produces the bytes of the case.
 func (r *Req) input() ([]byte, error) {
 	switch {
-	case r.Data != nil:
+	case r.Data != nil || r.Raw:
 		return r.Data, nil
 	case r.Wiring != nil:
 		d, ok := Materialise(r.Wiring, r.Variant)
